@@ -186,7 +186,11 @@ def _replay(args):
                 prev = []
                 for step, o in enumerate(beh['obs']):
                     try:
-                        system.add_ftop(lay.itp[o['sp']])
+                        if (step + len(beh['mols'])) % 3 == 0:
+                            with open(lay.itp[o['sp']]) as fh_top:        # an opened file instead of a path
+                                system.add_ftop(fh_top)
+                        else:
+                            system.add_ftop(lay.itp[o['sp']])
                         ok = True
                     except OSError:
                         ok = False
